@@ -157,15 +157,16 @@ theorem unlink_success_means_tree_gone (fs : Fs) (dir : Bytes) (d : CPath) (recu
             (dirUnlink_frame _ recursive fs dir d hwf.names hpp).out q⟩
 
 /-- Recursive unlink removes exactly the given tree: in a well-formed world, recursive Directory::unlink of
-    an existing directory given by a plain path succeeds, afterwards no path of the tree at `d` exists and
+    an existing directory given by a plain path (not the working directory or one of its ancestors, which the
+    model keeps) succeeds, afterwards no path of the tree at `d` exists and
     every other path is unchanged. -/
 theorem unlink_removes_exactly_tree (fs : Fs) (dir : Bytes) (d : CPath)
-    (hwf : WF fs) (hpp : PlainParent fs dir d) (hg : fs.get d = some .dir) :
+    (hwf : WF fs) (hpp : PlainParent fs dir d) (hg : fs.get d = some .dir) (hcw : d.isPrefixOf cwd = false) :
     (dirUnlinkTop fs dir true).2 = true ∧
     ∀ q, (d <+: q → (dirUnlinkTop fs dir true).1.get q = none) ∧
          (¬ (d <+: q) → (dirUnlinkTop fs dir true).1.get q = fs.get q) :=
-  ⟨dirUnlinkTop_succeeds fs dir d hwf hpp hg,
-   unlink_success_means_tree_gone fs dir d true hwf hpp (dirUnlinkTop_succeeds fs dir d hwf hpp hg)⟩
+  ⟨dirUnlinkTop_succeeds fs dir d hwf hpp hg hcw,
+   unlink_success_means_tree_gone fs dir d true hwf hpp (dirUnlinkTop_succeeds fs dir d hwf hpp hg hcw)⟩
 
 /-- well-formedness is kept by Directory::unlink (so the theorems apply to whole histories of unlinks) -/
 theorem unlink_keeps_wellformed (fs : Fs) (dir : Bytes) (recursive : Bool) (hwf : WF fs) :
